@@ -71,13 +71,15 @@ class TimeOpts(NativeModel):
 
 
 class Wn(NativeModel):
-    def __init__(self, g, sim_time, prev, duration, rts, max_trials, name="net"):
+    def __init__(self, g, sim_time, prev, duration, rts, max_trials, name="net", option_hyd_step=None):
         self.ghost = g
         self.sim_time = sim_time
         self._prev_sim_time = prev
         self.name = name
+        # options.time.hydraulic_timestep is the *configured* step; _setup_sim_options may reduce the effective one (self._hydraulic_timestep)
         self.options = types.SimpleNamespace(
-            time=types.SimpleNamespace(duration=duration, rule_timestep=rts),
+            time=types.SimpleNamespace(duration=duration, rule_timestep=rts, hydraulic_timestep=option_hyd_step, report_timestep=None,
+                                       pattern_timestep=None, pattern_start=0, start_clocktime=0),
             hydraulic=types.SimpleNamespace(trials=max_trials, demand_model="DD"))
 
     def valves(self):
@@ -295,6 +297,13 @@ def _inv(cfg):
                ("first_step_means_time_zero", z3.Implies(tb(L["first_step"]), z3.And(st == 0, pv == -1))),
                ("not_past_the_duration", st <= z3.ToReal(iv(wn.options.time.duration))),
                ("no_pending_save_no_failure", z3.BoolVal(g.pending is None and not g.failed and L["results"].error_code is None))]
+        ht = sim.fields.get("_hydraulic_timestep")
+        if isinstance(ht, int) and not isinstance(wn._prev_sim_time, (type(None),)):
+            # no hydraulic grid point is skipped: before the step is shortened by controls, sim_time is the first multiple of the
+            # effective hydraulic step after the last accepted time
+            pvi = z3.ToInt(pv)
+            out.append(("sim_time_is_the_next_hydraulic_grid_point",
+                        z3.Implies(z3.And(z3.Not(res), z3.Not(tb(L["first_step"]))), st == z3.ToReal((pvi / ht + 1) * ht))))
         return out
     return inv
 
@@ -340,6 +349,8 @@ def _case(start, report, conv_err, backup, hyd_mode):
             st, pv = cx.int("sim_time"), cx.int("prev_sim_time")
             # a paused model: stopped after a solved step at prev; sim_time is the next hydraulic step
             cx.assume(cx.t(st) > 0, cx.t(pv) >= 0, cx.t(pv) < cx.t(st), cx.t(st) <= cx.t(dur))
+            if hyd_mode != "sym":
+                cx.assume(cx.t(st) == (cx.t(pv) / hyd_mode + 1) * hyd_mode)     # paused right after a solved step: sim_time is the next grid point
         ht = cx.int("hydraulic_timestep") if hyd_mode == "sym" else hyd_mode
         if hyd_mode == "sym":
             cx.assume(cx.t(ht) >= 1)
@@ -351,7 +362,11 @@ def _case(start, report, conv_err, backup, hyd_mode):
             cx.assume(cx.t(rep) >= 1)
         cfg["report"] = lambda sim: rep
         cfg["hyd"] = lambda sim: ht
-        wn = Wn(g, st, pv, dur, rts, mt)
+        h0 = cx.int("configured_hydraulic_timestep")
+        cx.assume(cx.t(h0) >= 1)
+        if hyd_mode != "sym":
+            cx.assume(cx.t(h0) >= ht)         # the effective step is never larger than the configured one
+        wn = Wn(g, st, pv, dur, rts, mt, option_hyd_step=h0)
         res = Results(g)
         cfg["results"][0] = res
         sim = cx.obj(WNTRSimulator, _wn=wn, _rule_iter=cx.int("stale_rule_iter"), _change_tracker=Tracker(g), _model=None,
